@@ -29,6 +29,7 @@ var profiles = map[string]profile{
 	"C03": {segs: []int{1, 64, 96, 128, 256, 512}, delWeight: 25, hostile: 0, maxPhases: 2, reopenW: 15},
 	"C04": {segs: []int{1, 64, 128, 256, 512}, delWeight: 45, hostile: 0, maxPhases: 2, reopenW: 6},
 	"C13": {segs: []int{1, 64, 128, 256}, delWeight: 40, hostile: 0, maxPhases: 2, reopenW: 8},
+	"C09": {segs: []int{1, 64, 96, 128, 256, 512}, delWeight: 25, hostile: 0, maxPhases: 2, reopenW: 15},
 }
 
 var sizeChoices = []int{0, 1, 7, 8, 9, 20, 40, 60, 100, 170, 300, 600}
@@ -188,6 +189,7 @@ func TestCrashC02(t *testing.T) { common.Run(t, "C02", "CrashC02", genCase("C02"
 func TestCrashC03(t *testing.T) { common.Run(t, "C03", "CrashC03", genCase("C03"), runFor("C03")) }
 func TestCrashC04(t *testing.T) { common.Run(t, "C04", "CrashC04", genCase("C04"), runFor("C04")) }
 func TestCrashC13(t *testing.T) { common.Run(t, "C13", "CrashC13", genCase("C13"), runFor("C13")) }
+func TestCrashC09(t *testing.T) { common.Run(t, "C09", "CrashC09", genCase("C09"), runFor("C09")) }
 
 // TestDebugReplay prints an execution trace of a saved case: VERIF_REPLAY=<file> VERIF_PROP=<id>.
 func TestDebugReplay(t *testing.T) {
